@@ -419,6 +419,46 @@ __CPROVER_assigns(g_kept, g_kept_i, g_kept_j, g_kept_d, g_mat_i, g_mat_j, num_ed
                   desc="Sparse_distance_matrix(mat, threshold), loop body: an off-diagonal entry is kept exactly when its distance is <= threshold (the Rips filtration truncated AT the threshold), with its own vertex and distance"))
 
 
+def sparse_lookup_units(U):
+    """Sparse_distance_matrix::operator()(i, j): the distance of the stored edge {i, j}, +infinity when there is none.
+    The neighbour list of i is (nb, nb_n); std::lower_bound / std::upper_bound are C transcriptions of the standard's
+    specification (first position whose element is not less than / greater than the key) over the extracted operator<."""
+    NB = 6
+    G = ND + f"""
+#include <math.h>
+#define NB {NB}
+typedef int vertex_t; typedef float value_t;
+typedef struct {{ vertex_t i; value_t d; }} vertex_diameter_t;
+vertex_diameter_t nb[NB]; size_t nb_n; size_t g_probe;
+bool vd_less(vertex_diameter_t a, vertex_diameter_t b);
+static size_t vp_lower_bound_vd(vertex_diameter_t key) {{ size_t r = nb_n; for (size_t k = NB; k-- > 0;) if (k < nb_n && !vd_less(nb[k], key)) r = k; return r; }}   /* on a partitioned range */
+static size_t vp_upper_bound_vd(vertex_diameter_t key) {{ size_t r = nb_n; for (size_t k = NB; k-- > 0;) if (k < nb_n && vd_less(key, nb[k])) r = k; return r; }}
+/* specification side */
+static bool x_row_ok(void) {{ bool ok = nb_n <= NB; for (size_t k = 0; k < NB; k++) if (k < nb_n) {{ ok = ok && !isnan(nb[k].d) && nb[k].d >= 0 && !isinf(nb[k].d); if (k + 1 < nb_n) ok = ok && nb[k].i < nb[k + 1].i; }} return ok; }}
+static bool x_has(vertex_t j, value_t d) {{ bool f = false; for (size_t k = 0; k < NB; k++) if (k < nb_n && nb[k].i == j && nb[k].d == d) f = true; return f; }}
+"""
+    f_less = Fn(RP, r"friend bool operator<\(vertex_diameter_t const& a, vertex_diameter_t const& b\)", "vd_less", "", within=r"struct Sparse_distance_matrix \{",
+                sig_subs=[(r"operator<", "vd_less")])
+    f_gv = Fn(RP, r"friend vertex_t get_vertex\(const vertex_diameter_t& i\)", "get_vertex_vd", "", within=r"struct Sparse_distance_matrix \{")
+    f_gd = Fn(RP, r"friend value_t get_diameter\(const vertex_diameter_t& i\)", "get_diameter_vd", "", within=r"struct Sparse_distance_matrix \{")
+    con = """
+__CPROVER_requires(x_row_ok() && g_probe < nb_n)
+__CPROVER_ensures(nb[g_probe].i != j || __CPROVER_return_value == nb[g_probe].d)
+__CPROVER_ensures((isinf(__CPROVER_return_value) && __CPROVER_return_value > 0) || x_has(j, __CPROVER_return_value))
+__CPROVER_assigns()
+"""
+    fn = Fn(RP, r"value_t operator\(\)\(const vertex_t i, const vertex_t j\) const", "sparse_lookup", con, within=r"struct Sparse_distance_matrix \{",
+            sig_subs=[(r"operator\(\)", "sparse_lookup")],
+            subs=[(r"auto (\w+) =\s*std::(lower_bound|upper_bound)\(neighbors\[i\]\.begin\(\), neighbors\[i\]\.end\(\), vertex_diameter_t\{j, 0\}\);", r"size_t \1 = vp_\2_vd((vertex_diameter_t){j, 0});"),
+                  (r"(\w+) != neighbors\[i\]\.end\(\)", r"\1 != nb_n"), (r"get_vertex\(\*(\w+)\)", r"get_vertex_vd(nb[\1])"), (r"get_diameter\(\*(\w+)\)", r"get_diameter_vd(nb[\1])"),
+                  (r"std::numeric_limits<value_t>::infinity\(\)", "INFINITY")],
+            canary=(r"get_vertex_vd\(nb\[(\w+)\]\) == j", r"get_vertex_vd(nb[\1]) >= j"))
+    U.append(Unit("sparse_matrix.lookup", "C11", [f_less, f_gv, f_gd, fn], enforce="sparse_lookup", globals_=G, unwind=NB + 2, route="B",
+                  bound=f"neighbour lists of at most {NB} entries; vertices, distances (finite, >= 0) and the queried vertex symbolic",
+                  inputs=["in_i", "in_j", "nb", "nb_n", "g_probe"], replay=mk_replay_lookup(NB),
+                  harness=H("  int in_i = nondet_int(), in_j = nondet_int(); nb_n = nondet_ulong(); g_probe = nondet_ulong();\n  for (int k = 0; k < NB; k++) { nb[k].i = nondet_int(); nb[k].d = nondet_float(); }", "sparse_lookup(in_i, in_j);"),
+                  desc="Sparse_distance_matrix::operator()(i, j): on a neighbour list sorted by vertex (each neighbour once, distances finite and >= 0, zero allowed), returns the stored distance of the edge {i, j} when there is one - including a zero-length edge - and +infinity otherwise"))
+
 def enumerator_units(U):
     """dense Simplex_coboundary_enumerator_::next(): filters the raw cofacets by the threshold.  next_raw (the
     enumeration itself) is a ghost stub that yields an arbitrary finite sequence of candidates."""
@@ -665,6 +705,7 @@ def units(tier):
     coeff_units(U)
     fake128_units(U)
     matrix_units(U)
+    sparse_lookup_units(U)
     return U
 
 
@@ -701,6 +742,26 @@ def mk_replay_f128(name):
         if None in vals:
             return {"reproduced": None, "detail": f"operands not in the trace: {i}"}
         cmd = [_bin("ripser_bits", ["-DGUDHI_FORCE_FAKE_UINT128", "-DNDEBUG"]), "f128", name] + [_n(v) for v in vals] + [_n(i.get("in_s", 0))]
+        rc, o, e, s = sh(cmd, 60)
+        return {"reproduced": True if rc == 1 else (False if rc == 0 else None), "cmd": " ".join(cmd), "detail": (o + e).strip()[-500:], "rc": rc}
+    return rp
+
+
+def mk_replay_lookup(nbmax):
+    def rp(unit, failure):
+        i = failure["inputs"]
+        n, j = i.get("nb_n"), i.get("in_j")
+        if n is None or j is None:
+            return {"reproduced": None, "detail": f"inputs not in the trace: {sorted(i)}"}
+        n = int(_n(n))
+        args = []
+        for k in range(n):
+            v = i.get(f"nb[{k}l].i", i.get(f"nb[{k}].i"))
+            d = i.get(f"nb[{k}l].d", i.get(f"nb[{k}].d"))
+            if v is None or d is None or not str(d).startswith("bits:"):
+                return {"reproduced": None, "detail": f"neighbour {k} not in the trace: {sorted(i)}"}
+            args += [_n(v), str(d)[5:]]
+        cmd = [_bin("ripser_bits", ["-DGUDHI_FORCE_FAKE_UINT128", "-DNDEBUG"]), "lookup", _n(j), str(n)] + args
         rc, o, e, s = sh(cmd, 60)
         return {"reproduced": True if rc == 1 else (False if rc == 0 else None), "cmd": " ".join(cmd), "detail": (o + e).strip()[-500:], "rc": rc}
     return rp
